@@ -211,6 +211,10 @@ func (m *machine) apply(cl Call) error {
 		ctx.DrawText(f(0), f(1), m.text)
 	case "DrawImage":
 		ctx.DrawImage(f(0), f(1), m.img, canvas.DPMM(1.0))
+	case "FitImageCover":
+		ctx.FitImage(image.NewRGBA(image.Rect(0, 0, 4, 6)), canvas.Rect{X0: f(0), Y0: f(1), X1: f(0) + 8, Y1: f(1) + 4}, canvas.ImageCover)
+	case "FitImageFill":
+		ctx.FitImage(image.NewRGBA(image.Rect(0, 0, 4, 6)), canvas.Rect{X0: f(0), Y0: f(1), X1: f(0) + 8, Y1: f(1) + 12}, canvas.ImageFill)
 	case "Fill", "Stroke", "FillStroke":
 		ctx.MoveTo(0, 0)
 		ctx.LineTo(4, 0)
@@ -652,7 +656,7 @@ func randCall(r *rand.Rand, theme int) Call {
 	case 28:
 		return Call{[]string{"DrawPath", "DrawLine"}[r.Intn(2)], []int{ri(-2, 3), ri(-2, 3)}}
 	case 29:
-		return Call{[]string{"DrawText", "DrawImage"}[r.Intn(2)], []int{ri(-2, 3), ri(-2, 3)}}
+		return Call{[]string{"DrawText", "DrawImage", "FitImageCover", "FitImageFill"}[r.Intn(4)], []int{ri(-2, 3), ri(-2, 3)}}
 	case 30:
 		return Call{[]string{"Fill", "Stroke", "FillStroke"}[r.Intn(3)], nil}
 	case 31:
